@@ -22,6 +22,9 @@ OPENERS = ('commit ', 'diff ', '--- ', '+++ ', '@@', 'Submodule ', 'Binary files
 BLAMEISH = re.compile(r'^\^?[0-9a-f]{4,40} ')
 
 
+DIFF_STAT = re.compile(r' ([^| ][^|]+[^| ]) +(\| +[0-9]+ .+)')
+
+
 def is_opener(visible):
     return visible.startswith(OPENERS) or BLAMEISH.match(visible) is not None
 
@@ -111,6 +114,16 @@ def run_item(item):
         mll = rng.choice([100, 200])
         opts['--max-line-length'] = mll
         cls.append('maxlen')
+    env = {}
+    git_prefix = None
+    if rng.random() < 0.15:
+        opts['--relative-paths'] = True
+        cls.append('relative-paths')
+        if rng.random() < 0.6:
+            # git starts its pager in the subdirectory the user is in and says so in GIT_PREFIX
+            git_prefix = rng.choice(['src/', 'a/b/', 'docs/'])
+            env['GIT_PREFIX'] = git_prefix
+            cls.append('git-prefix')
     segs = []   # ('text', bytes_line, cls) | ('anchor', bytes_to_find) | ('raw', line)
     in_lines = []
     shape = []
@@ -198,7 +211,7 @@ def run_item(item):
                 add_text(rng.randint(1, 8))
                 add_diff(k)
     data = b'\n'.join(in_lines) + b'\n'
-    res = runner.run_delta(gen.to_args(opts), data)
+    res = runner.run_delta(gen.to_args(opts), data, env=env)
     c = crash_outcome(res, ID)
     if c is not None:
         return c
@@ -224,6 +237,18 @@ def run_item(item):
             counters['anchors'] += 1
             continue
         _, b, cl = seg
+        m = DIFF_STAT.search(term.strip_escapes(b.decode('utf-8', 'replace'))) if git_prefix else None
+        if m and not (pos < len(out_lines) and matches(out_lines[pos], expected_bytes(b, cl, mll), b, cl, mll)):
+            # a diff-stat line: its path is rewritten relative to the subdirectory (documented behaviour); the counts stay
+            suffix = ' '.join(m.group(2).split())
+            k = pos
+            while k < len(out_lines) and suffix not in ' '.join(term.strip_escapes(out_lines[k].decode('utf-8', 'replace')).split()):
+                k += 1
+            if k >= len(out_lines):
+                return violated('c04:diff-stat-line-missing', 'a diff-stat line has no counterpart in the output', repr(b)[:200], None, run=res,
+                                counters=counters, sets=sets)
+            pos = k + 1
+            continue
         exp = expected_bytes(b, cl, mll)
         k = pos
         found = -1
